@@ -113,4 +113,42 @@ theorem persists_linked (t0 : List Leaf) (h0 : Trie.SnapOk t0) (tmp : Option CFi
   · obtain ⟨p, hp, e, hf⟩ := (C09.layered_over_map sys (freshSt t) _ key (hlk key)).2.2 x v hm
     exact ⟨p, hp, e, Nat.le_trans h1 hf⟩
 
+/-- **the same with the file as bytes** (`C10.durable_lookup_bytes_linked`: C11 under C09 under C10).  Extra
+    hypotheses, all explicit: the initial file was written from valid entries `es0`, the calls have
+    arguments of the Rust types, every snapshot of the history is within the limits of the trie format
+    (`SnapshotsOk … FitsInfo`, C11's `Fits`), the key has non-zero syllables.  Then the **bytes** at the
+    path exist, `Trie::new` opens them, the real byte-level `lookup_all_phrases` of the key lists the
+    learned phrase with exactly the learned (frequency, time), a `TrieBuf` opened on the file reads its
+    lookups through that reader, and `Layered` offers the phrase with a positive frequency. -/
+theorem persists_bytes_linked (info : TrieCodec.Info) (hinfo : TrieCodec.ValidInfo info)
+    (es0 : List Entry) (hv0 : ∀ e ∈ es0, TrieCodec.ValidEntry e) (hfit0 : C10.FitsInfo info es0)
+    (tmp : Option CFile) (htmp : TmpWritten (C10.FitsInfo info) tmp)
+    (acts : List CAct) (hok : ∀ a ∈ acts, CActOk a) (hval : ∀ a ∈ acts, CActValid a)
+    (hfit : SnapshotsOk (C10.FitsInfo info) (cinit (Trie.build es0) tmp) acts)
+    (cw : CWorld) (hrun : crun (cinit (Trie.build es0) tmp) acts = some cw) (hcl : cw.phase = .closed)
+    (u : UserMap) (hu : URep u (MapSpec.Map.run (TrieBuf.baseGet (Trie.build es0)) (opsOf acts)))
+    (key : List Nat) (hkey : C11.ValidKey key) (x : Text) (hlive : Live u (key, x)) (sys : List Dict) :
+    ∃ es bytes tr, cw.fs .path = some (.complete (Trie.build es)) ∧
+      (TrieCodec.Builder.ofEntries info es).write = some bytes ∧ TrieCodec.openTrie bytes = some tr ∧
+      (∃ p ∈ TrieCodec.lookupAll tr key .standard, p.text = x ∧ u.get? (key, x) = some (MapSpec.valOf p)) ∧
+      TrieBuf.lookupAll (freshSt (Trie.build es)) key .standard = dedup (TrieCodec.lookupAll tr key .standard) ∧
+      ∃ p ∈ Layered.lookupAll (sys ++ [TrieBuf.toDict (freshSt (Trie.build es))]) key .standard, p.text = x ∧ 1 ≤ p.freq := by
+  obtain ⟨es, bytes, tr, hpath, _, hw, hopen, _, _, hlk, _, _, hrd, _⟩ :=
+    C10.durable_lookup_bytes_linked info hinfo es0 hv0 hfit0 tmp htmp acts hok hval hfit cw hrun hcl
+  have h0 : Written (C10.FitsInfo info) (Trie.build es0) := ⟨es0, hv0, hfit0, rfl⟩
+  obtain ⟨t, hpath', _, hlay⟩ := persists_linked (Trie.build es0) h0.snapOk tmp htmp.ok acts hok cw hrun hcl u hu key x hlive sys
+  have et : t = Trie.build es := by
+    rw [hpath] at hpath'
+    simp only [Option.some.injEq, CFile.complete.injEq] at hpath'
+    exact hpath'.symm
+  rw [et] at hlay
+  obtain ⟨v, hv, _⟩ := hlive
+  have hm : MapSpec.Map.run (TrieBuf.baseGet (Trie.build es0)) (opsOf acts) (key, x) = some v := by rw [← hu]; exact hv
+  refine ⟨es, bytes, tr, hpath, hw, hopen, ?_, hrd key .standard hkey, hlay⟩
+  obtain ⟨p, hp, e⟩ := (hlk key hkey).2.2 x v hm
+  refine ⟨p, hp, e, ?_⟩
+  have := (hlk key hkey).2.1 p hp
+  rw [e] at this
+  rw [hu, this]
+
 end Chewing.LearnLink
